@@ -3,6 +3,9 @@ C16 continued: block sizes (M3) and self-location (M4).
 -/
 import Compress.Meta.Codec
 import Compress.Proofs.Meta
+import Compress.Proofs.MetaLocSearch
+import Compress.Proofs.MetaLocSize
+import Compress.Proofs.MetaLocMagic
 
 namespace Compress.Proofs.MetaLocate
 open Compress Compress.Meta
@@ -15,17 +18,22 @@ def window (data : List UInt8) (i : Nat) : Nat :=
 
 def magicAt (data : List UInt8) (i : Nat) : Bool := window data i &&& magicMask == magicVals
 
+/-- the helper files work with a copy of these two definitions. -/
+theorem window_eq : window = MetaLoc.window := rfl
+theorem magicAt_eq : magicAt = MetaLoc.magicAt := rfl
+
 /-- `ReverseSearch` returns the last index whose window carries the signature. -/
 theorem reverseSearch_spec (data : List UInt8) :
     (reverseSearch data = -1 ∧ ∀ i, i < data.length → magicAt data i = false) ∨
     (∃ k : Nat, reverseSearch data = (k : Int) ∧ k < data.length ∧ magicAt data k = true ∧
        ∀ i, k < i → i < data.length → magicAt data i = false) := by
-  sorry
+  rw [magicAt_eq]
+  exact MetaLoc.reverseSearch_spec data
 
 /-- M3: every encoded block is 12 to 64 bytes long. -/
 theorem encodeBlock_size (buf : List UInt8) (final : FinalMode) (bits : Bits)
     (h : encodeBlock buf final = some bits) : 12 * 8 ≤ bits.length ∧ bits.length ≤ 64 * 8 := by
-  sorry
+  exact MetaLoc.encodeBlock_size_aux buf final bits h
 
 /-- M4: inside an encoded block the signature matches at the block start only
     (all windows, including the zero-extended ones at the tail). -/
@@ -33,12 +41,41 @@ theorem magic_only_at_start (buf : List UInt8) (final : FinalMode) (bits : Bits)
     (h : encodeBlock buf final = some bits) :
     magicAt (Bits.toBytes bits) 0 = true ∧
     ∀ i, 0 < i → i < (Bits.toBytes bits).length → magicAt (Bits.toBytes bits) i = false := by
-  sorry
+  rw [magicAt_eq]
+  exact MetaLoc.magic_only_at_start_aux buf final bits h
+
+theorem magicAt_append (pre s : List UInt8) (j : Nat) :
+    magicAt (pre ++ s) (pre.length + j) = magicAt s j := by
+  unfold magicAt
+  rw [window_eq, MetaLoc.window_append]
 
 /-- hence a backward search over anything followed by one block finds that block. -/
 theorem reverseSearch_finds_last_block (pre : List UInt8) (buf : List UInt8) (final : FinalMode) (bits : Bits)
     (h : encodeBlock buf final = some bits) :
     reverseSearch (pre ++ Bits.toBytes bits) = (pre.length : Int) := by
-  sorry
+  obtain ⟨h0, hlater⟩ := magic_only_at_start buf final bits h
+  have hsz := encodeBlock_size buf final bits h
+  have hal := Proofs.Meta.encodeBlock_aligned buf final bits h
+  have hlen : (Bits.toBytes bits).length = bits.length / 8 := Proofs.Meta.length_toBytes bits hal
+  have hpos : 0 < (Bits.toBytes bits).length := by omega
+  have hat : magicAt (pre ++ Bits.toBytes bits) pre.length = true := by
+    have := magicAt_append pre (Bits.toBytes bits) 0
+    rw [Nat.add_zero] at this
+    rw [this]; exact h0
+  rcases reverseSearch_spec (pre ++ Bits.toBytes bits) with ⟨_, hall⟩ | ⟨k, e, hk, hm, hall⟩
+  · have := hall pre.length (by rw [List.length_append]; omega)
+    rw [hat] at this; cases this
+  · rw [List.length_append] at hk
+    have hkp : k = pre.length := by
+      rcases Nat.lt_trichotomy k pre.length with hlt | heq | hgt
+      · have := hall pre.length hlt (by rw [List.length_append]; omega)
+        rw [hat] at this; cases this
+      · exact heq
+      · exfalso
+        have e2 : k = pre.length + (k - pre.length) := by omega
+        rw [e2, magicAt_append] at hm
+        have := hlater (k - pre.length) (by omega) (by omega)
+        rw [hm] at this; cases this
+    rw [e, hkp]
 
 end Compress.Proofs.MetaLocate
